@@ -168,6 +168,9 @@ func runSeed(seed int64, ps *PropSpec, keepLog bool) (*RunResult, *world.World, 
 	if err != nil {
 		return nil, nil, err
 	}
+	if w.Broken {
+		return &RunResult{Seed: seed, Cfg: cfg, Found: toFound(w.Found), Trace: []world.Event{}}, w, nil
+	}
 	w.KeepLog = keepLog
 	w.StopProp = stopProp
 	g := &gen.Gen{R: r, W: w, P: gen.Swarm(r, ps.Profile), Boot: 8 + r.Intn(14)}
@@ -185,14 +188,10 @@ func runSeed(seed int64, ps *PropSpec, keepLog bool) (*RunResult, *world.World, 
 		w.Apply(ev)
 	}
 	if !w.Stop() && walFile == nil {
-		w.Trace = append(w.Trace, w.Drain(4*len(w.Pool)+50)...)
-	}
-	if len(w.Found) == 0 && len(w.Pool) > 0 {
-		var ids []string
-		for _, m := range w.Pool {
-			ids = append(ids, m.ID+":"+m.Kind)
-		}
-		return nil, nil, fmt.Errorf("seed %d: drain left %v in flight (harness trouble)", seed, ids)
+		// the last event of every run: deliver everything with faults off; nothing may stay in flight
+		ev := world.Event{N: w.NextN, K: "quiesce"}
+		w.Trace = append(w.Trace, ev)
+		w.Apply(ev)
 	}
 	res := &RunResult{Seed: seed, Cfg: cfg, Events: w.Stats.Events, Calls: w.Stats.Calls, Found: toFound(w.Found), Hash: w.Hash()}
 	if keepLog {
@@ -209,6 +208,9 @@ func replayTrace(cfg world.Config, evs []world.Event, keepLog bool) (*world.Worl
 	w, err := world.NewWorld(cfg)
 	if err != nil {
 		return nil, err
+	}
+	if w.Broken {
+		return w, nil
 	}
 	w.KeepLog = keepLog
 	for _, nd := range w.Nodes {
